@@ -1,6 +1,8 @@
 package main
 
 import (
+	"go/ast"
+	"path/filepath"
 	"sort"
 	"strings"
 
@@ -80,9 +82,76 @@ func (c *Ctx) callersOf(target *ssa.Function) []callSite {
 func (c *Ctx) callerNames(target *ssa.Function) []string {
 	set := map[string]bool{}
 	for _, cs := range c.callersOf(target) {
-		set[shortFn(cs.Caller)] = true
+		// a NEW function (not on the confirmed tree) that could not be substituted into its callers (it is used as a
+		// method value, deferred, spawned ...) acts on behalf of the functions that reference it
+		for _, o := range c.ownersOf(cs.Caller, 0) {
+			set[shortFn(o)] = true
+		}
 	}
 	return sortedKeys(set)
+}
+
+// isNewFunc: the (top-level) function does not exist on the confirmed tree (known_funcs.txt) and is not a rename.
+func (c *Ctx) isNewFunc(fn *ssa.Function) bool {
+	fn = topLevel(fn)
+	if fn == nil || fn.Syntax() == nil || !inModulePkg(fn) {
+		return false
+	}
+	fd, ok := fn.Syntax().(*ast.FuncDecl)
+	if !ok {
+		return false
+	}
+	file := c.P.Fset.Position(fd.Pos()).Filename
+	rel, err := filepath.Rel(c.P.Repo, filepath.Dir(file))
+	if err != nil {
+		return false
+	}
+	key := funcKey(rel, fd)
+	if _, renamed := renamedFuncs[key]; renamed {
+		return false
+	}
+	return !knownFuncs[key]
+}
+
+// ownersOf: fn itself when it exists on the confirmed tree; otherwise the confirmed functions that reference it.
+func (c *Ctx) ownersOf(fn *ssa.Function, depth int) []*ssa.Function {
+	top := topLevel(fn)
+	if depth > 3 || !c.isNewFunc(top) {
+		return []*ssa.Function{fn}
+	}
+	var out []*ssa.Function
+	seen := map[*ssa.Function]bool{}
+	for _, g := range c.P.Subjects {
+		if topLevel(g) == top {
+			continue
+		}
+		refs := false
+		eachInstr(g, func(in ssa.Instruction) {
+			for _, op := range in.Operands(nil) {
+				if op == nil || *op == nil {
+					continue
+				}
+				if f, ok := (*op).(*ssa.Function); ok {
+					if f == top || (f.Object() != nil && f.Object() == top.Object()) {
+						refs = true
+					}
+				}
+				if mc, ok := (*op).(*ssa.MakeClosure); ok {
+					if f, ok := mc.Fn.(*ssa.Function); ok && f.Object() != nil && f.Object() == top.Object() {
+						refs = true
+					}
+				}
+			}
+		})
+		if refs && !seen[topLevel(g)] {
+			seen[topLevel(g)] = true
+			out = append(out, c.ownersOf(topLevel(g), depth+1)...)
+		}
+	}
+	if len(out) == 0 {
+		return []*ssa.Function{fn}
+	}
+	return out
 }
 
 // calleesAt returns the functions a call site may invoke according to the call graph.
